@@ -16,6 +16,10 @@ pub enum Use {
 }
 #[derive(Clone, Debug, Serialize, Deserialize, PartialEq)]
 pub struct CacheLife {
+    /// 0: custom in-memory source; 1: source whose make_source() is None (hot-reloading switched off by the source);
+    /// 2: the FileSystem source over a scratch directory, watched through the (stub) notify back-end
+    #[serde(default)]
+    pub kind: u8,
     /// the source keeps the EventSender alive after the cache is gone (a custom source or a watcher usually does)
     pub sender_outlives: bool,
     /// the source drops its EventSender right after the cache was created (it will never send anything)
@@ -54,6 +58,11 @@ impl Property for C15 {
         let n = 1 + g.below(4) as usize;
         let caches = (0..n)
             .map(|_| CacheLife {
+                kind: match g.below(6) {
+                    0 => 1,
+                    1 | 2 => 2,
+                    _ => 0,
+                },
                 sender_outlives: g.chance(2, 3),
                 sender_dropped_early: g.chance(1, 6),
                 uses: (0..g.below(6))
@@ -127,40 +136,80 @@ fn check_idle(infos: &[detsim::ThreadInfo], live_caches: usize, when: &str) {
     }
 }
 
+enum Cache {
+    Mem(AssetCache<SimSource>, SimSource),
+    Fs(AssetCache<assets_manager::source::FileSystem>, std::path::PathBuf, usize),
+}
 struct Live {
-    cache: AssetCache<SimSource>,
-    src: SimSource,
+    cache: Cache,
     life: CacheLife,
+}
+static DIRNO: std::sync::atomic::AtomicU64 = std::sync::atomic::AtomicU64::new(0);
+fn deliver(widx: usize, kind: notify::EventKind, path: std::path::PathBuf) -> bool {
+    detsim::thread::spawn_named("notify-backend".into(), move || notify::sim_deliver(widx, Ok(notify::Event::new(kind).add_path(path)))).join().unwrap_or(false)
+}
+fn modify() -> notify::EventKind {
+    notify::EventKind::Modify(notify::event::ModifyKind::Data(notify::event::DataChange::Any))
 }
 
 fn make(life: &CacheLife) -> Live {
+    if life.kind == 2 {
+        let base = scratch_base();
+        let dir = base.join(format!("simcheck-c15-{}-{}", std::process::id(), DIRNO.fetch_add(1, std::sync::atomic::Ordering::Relaxed)));
+        std::fs::create_dir_all(&dir).unwrap();
+        for i in 0..3 {
+            std::fs::write(dir.join(format!("k{i}.a")), format!("v0-{i}")).unwrap();
+        }
+        let before = detsim::notify_stub::watcher_count();
+        let cache = AssetCache::new(&dir).expect("AssetCache::new");
+        detsim::check(detsim::notify_stub::watcher_count() == before + 1, "C15/harness", || "the FileSystem source did not register a watcher".into());
+        return Live { cache: Cache::Fs(cache, dir.canonicalize().unwrap(), before), life: life.clone() };
+    }
     let mut tree = Tree::default();
     for i in 0..3 {
         tree.put(&format!("k{i}"), "a", format!("v0-{i}").as_bytes());
     }
-    let src = SimSource::new(tree, HotMode::Custom, 1);
+    let src = SimSource::new(tree, if life.kind == 1 { HotMode::NoMakeSource } else { HotMode::Custom }, 1);
+    let threads_before = reloaders(&detsim::thread_infos()).len();
     let cache = AssetCache::with_source(src.clone());
+    if life.kind == 1 {
+        // a source that switches hot-reloading off is never asked to start a watcher, and gets no reloader thread
+        detsim::check(src.configure_calls() == 0, "C15/watcher-started-for-source-without-hot-reloading", || format!("configure_hot_reloading was called {} time(s) on a source whose make_source() returns None", src.configure_calls()));
+        detsim::check(reloaders(&detsim::thread_infos()).len() == threads_before, "C15/reloader-started-for-source-without-hot-reloading", || "a reloader thread was started for a source whose make_source() returns None".into());
+        detsim::count("reach.cache_over_source_without_hot_reloading");
+    }
     if life.sender_dropped_early {
         src.drop_sender();
         detsim::count("fault.source_dropped_its_sender_early");
     }
-    Live { cache, src, life: life.clone() }
+    Live { cache: Cache::Mem(cache, src), life: life.clone() }
 }
 fn use_it(l: &Live, ver: &mut u64) {
     for u in &l.life.uses {
-        match u {
-            Use::Load(k) => {
-                let _ = l.cache.load::<LA>(&format!("k{k}"));
+        match (u, &l.cache) {
+            (Use::Load(k), Cache::Mem(c, _)) => {
+                let _ = c.load::<LA>(&format!("k{k}"));
             }
-            Use::Edit(k) => {
+            (Use::Load(k), Cache::Fs(c, ..)) => {
+                let _ = c.load::<LA>(&format!("k{k}"));
+            }
+            (Use::Edit(k), Cache::Mem(_, src)) => {
                 *ver += 1;
-                l.src.tree(|t| t.put(&format!("k{k}"), "a", format!("v{ver}").as_bytes()));
+                src.tree(|t| t.put(&format!("k{k}"), "a", format!("v{ver}").as_bytes()));
             }
-            Use::Notify(k) => {
-                l.src.notify(file_entry(&format!("k{k}"), "a"));
+            (Use::Edit(k), Cache::Fs(_, dir, _)) => {
+                *ver += 1;
+                std::fs::write(dir.join(format!("k{k}.a")), format!("v{ver}")).unwrap();
             }
-            Use::HotReload => l.cache.hot_reload(),
-            Use::Quiet => {
+            (Use::Notify(k), Cache::Mem(_, src)) => {
+                src.notify(file_entry(&format!("k{k}"), "a"));
+            }
+            (Use::Notify(k), Cache::Fs(_, dir, widx)) => {
+                deliver(*widx, modify(), dir.join(format!("k{k}.a")));
+            }
+            (Use::HotReload, Cache::Mem(c, _)) => c.hot_reload(),
+            (Use::HotReload, Cache::Fs(c, ..)) => c.hot_reload(),
+            (Use::Quiet, _) => {
                 let infos = detsim::quiesce();
                 // every reloader is blocked: idle costs nothing
                 for t in reloaders(&infos) {
@@ -172,34 +221,64 @@ fn use_it(l: &Live, ver: &mut u64) {
     }
 }
 fn drop_it(l: Live, live_after: usize) -> Option<SimSource> {
-    if l.life.hot_reload_before_drop {
-        l.cache.hot_reload();
+    let Live { cache, life } = l;
+    match cache {
+        Cache::Mem(cache, src) => {
+            if life.hot_reload_before_drop {
+                cache.hot_reload();
+            }
+            for i in 0..life.queued_at_drop {
+                src.notify(file_entry(&format!("k{}", i % 3), "a"));
+                detsim::count("reach.dropped_with_events_queued");
+            }
+            drop(cache);
+            if life.kind != 1 {
+                detsim::count("reach.cache_with_reloader_dropped");
+            }
+            let keep = if life.sender_outlives {
+                Some(src)
+            } else {
+                src.drop_sender();
+                drop(src);
+                None
+            };
+            // after the drop returned: within a bounded number of its own steps the reloader has finished or sleeps for good
+            let infos = detsim::quiesce();
+            check_idle(&infos, live_after, "after drop(cache)");
+            if let Some(src) = &keep {
+                // a late notification from the source must not wake anything into a busy loop either
+                src.notify(file_entry("k0", "a"));
+                detsim::count("fault.notification_after_drop");
+                let infos = detsim::quiesce();
+                check_idle(&infos, live_after, "notification after drop(cache)");
+            }
+            keep
+        }
+        Cache::Fs(cache, dir, widx) => {
+            if life.hot_reload_before_drop {
+                cache.hot_reload();
+            }
+            for i in 0..life.queued_at_drop {
+                deliver(widx, modify(), dir.join(format!("k{}.a", i % 3)));
+            }
+            drop(cache);
+            detsim::count("reach.cache_with_reloader_dropped");
+            detsim::count("reach.filesystem_cache_dropped");
+            let infos = detsim::quiesce();
+            check_idle(&infos, live_after, "after drop(filesystem cache)");
+            // the watcher learns that nobody listens when it next reports something, whatever that is:
+            // an ordinary file, or a name that maps to no asset id
+            let p = if life.sender_outlives { dir.join("k0.a") } else { dir.join("notes.v2.txt") };
+            std::fs::write(&p, b"late").unwrap();
+            deliver(widx, modify(), p.clone());
+            let alive = detsim::notify_stub::watcher_info(widx).map(|w| w.0).unwrap_or(false);
+            detsim::check(!alive, "C15/watcher-outlives-cache", || format!("the cache over {dir:?} was dropped and the back-end reported a change of {p:?} afterwards, yet the filesystem watcher (its thread and handler) is still running"));
+            let infos = detsim::quiesce();
+            check_idle(&infos, live_after, "notification after drop(filesystem cache)");
+            let _ = std::fs::remove_dir_all(&dir);
+            None
+        }
     }
-    for i in 0..l.life.queued_at_drop {
-        l.src.notify(file_entry(&format!("k{}", i % 3), "a"));
-        detsim::count("reach.dropped_with_events_queued");
-    }
-    let Live { cache, src, life } = l;
-    drop(cache);
-    detsim::count("reach.cache_with_reloader_dropped");
-    let keep = if life.sender_outlives {
-        Some(src)
-    } else {
-        src.drop_sender();
-        drop(src);
-        None
-    };
-    // after the drop returned: within a bounded number of its own steps the reloader has finished or sleeps for good
-    let infos = detsim::quiesce();
-    check_idle(&infos, live_after, "after drop(cache)");
-    if let Some(src) = &keep {
-        // a late notification from the source must not wake anything into a busy loop either
-        src.notify(file_entry("k0", "a"));
-        detsim::count("fault.notification_after_drop");
-        let infos = detsim::quiesce();
-        check_idle(&infos, live_after, "notification after drop(cache)");
-    }
-    keep
 }
 
 fn scenario(w: Work) {
